@@ -75,7 +75,11 @@ type Sim struct {
 	bl      map[string]*blCall // running BecomeLeader calls by node
 
 	writeGateOn atomic.Bool
+	auto        atomic.Bool // free-running: nothing is parked, the wire delivers at once
 }
+
+// SetAuto switches the free-running mode (stress runs recorded for trace validation)
+func (s *Sim) SetAuto(on bool) { s.auto.Store(on) }
 
 type blCall struct {
 	done   chan struct{}
@@ -238,6 +242,9 @@ func (s *Sim) note(kind, from, to string, a, b int64) {
 
 // park blocks the caller until the scheduler releases the gate (or ctx ends).
 func (s *Sim) park(ctx context.Context, kind, from, to string) error {
+	if s.auto.Load() {
+		return nil
+	}
 	p := &parked{kind: kind, from: from, to: to, release: make(chan struct{})}
 	s.mu.Lock()
 	s.parkedL = append(s.parkedL, p)
